@@ -205,3 +205,64 @@ Definition check_rwx (c : rwx_case) : N :=
         | _, _ => false
         end)
        (match iroot with Some _ => true | None => false end).
+
+(* ---- scripts on lists with explicit (possibly repeated) leaf ids ----
+   (seed, initial leaf ids, ops (0,id,_) = append leaf id / (1,pos,id) = update pos to leaf id, state after the script,
+    reloaded state, proofs: (queried value ids, impl err, impl idxs, impl sibling hashes, impl verdict),
+    right witnesses: (idx, impl witness, impl reconstructed root, impl verdict)).
+   Queries are by value: with repeated values the implementation may answer with any position holding that value, so
+   the proof is judged from ITS indexes: each must be a leaf index whose leaf has the queried value (oracle), the sibling
+   hashes must be the model's for those indexes, and it must verify. *)
+Definition seq_case : Type :=
+  N * list N * list (N * N * N) * st * option st *
+  list (list N * bool * list N * list hsh * bool) * list (N * option (list hsh) * option hsh * bool).
+Definition apply_op (seed : N) (ls : list (list N)) (o : N * N * N) : list (list N) :=
+  let '(k, a, b) := o in
+  if k =? 0 then ls ++ [leaf_val seed a] else set_nth (N.to_nat a) (leaf_val seed b) ls.
+Definition check_seq (c : seq_case) : N :=
+  let '(seed, ids, ops, ist, reload, proofs, rws) := c in
+  let ls := fold_left (apply_op seed) ops (map (leaf_val seed) ids) in
+  let n := N.of_nat (length ls) in
+  let root := mroot' ls in
+  let path := subtree_roots hempty hleaf hbranch ls in
+  let spec_st : st := (root, path, n) in
+  let height := get_height n in
+  let present (id : N) := existsb (bytes_eqb (leaf_val seed id)) ls in
+  let run_proof (p : list N * bool * list N * list hsh * bool) : bool * bool :=
+    let '(qids, ierr, iidxs, isibs, iver) := p in
+    let qh := map (fun id => hleaf (leaf_val seed id)) qids in
+    let msibs := sibling_hashes (node_at ls) n iidxs in
+    let mver := verify_proof hbranch bytes_eqb qh n iidxs isibs root in
+    let agree := if ierr then true
+                 else match msibs with Ok sb => list_eqb bytes_eqb sb isibs | _ => false end && Bool.eqb mver iver in
+    let idx_ok (qi : N * N) :=
+      let '(id, idx) := qi in
+      if present id then
+        (2 ^ height <=? idx) && (idx <? 2 ^ height + n) &&
+        bytes_eqb (nth (N.to_nat (idx - 2 ^ height)) ls []) (leaf_val seed id)
+      else true in
+    let all_present := forallb present qids in
+    let spec := if all_present && negb (Nat.eqb (length qids) 0)
+                then negb ierr && Nat.eqb (length iidxs) (length qids) && forallb idx_ok (combine qids iidxs) && iver
+                else true in
+    (agree, spec) in
+  let run_rw (w : N * option (list hsh) * option hsh * bool) : bool * bool :=
+    let '(idx, iw, iroot, iver) := w in
+    let path_part := subtree_roots hempty hleaf hbranch (firstn (N.to_nat idx) ls) in
+    let mw := gen_right_witness (node_at ls) path n idx in
+    let agree_w := match mw, iw with Ok x, Some y => list_eqb bytes_eqb x y | Err, None => true | _, _ => false end in
+    let agree_r := match iw with
+                   | Some x => match root_from_right_witness hempty hbranch idx path_part x, iroot with
+                               | Ok r, Some r' => bytes_eqb r r'
+                               | Err, Some [] => true
+                               | _, _ => false
+                               end
+                   | None => true
+                   end in
+    let spec := if n <? idx then true
+                else match iw, iroot with Some _, Some r => iver && bytes_eqb r root | _, _ => false end in
+    (agree_w && agree_r, spec) in
+  let ps := map run_proof proofs in
+  let ws := map run_rw rws in
+  code (st_eqb ist spec_st && forallb fst ps && forallb fst ws)
+       (st_eqb ist spec_st && ((n =? 0) || ost_eqb reload (Some spec_st)) && forallb snd ps && forallb snd ws).
